@@ -59,6 +59,12 @@ class NotFound(KeyError):
     """a function/class under contract does not exist in the tree under check"""
 
 
+def loop_shape(fn):
+    """kinds of the loop statements of a function in source order"""
+    loops = sorted((n.lineno, n.col_offset, "for" if isinstance(n, ast.For) else "while") for n in ast.walk(fn) if isinstance(n, (ast.For, ast.While)))
+    return [k for _, _, k in loops]
+
+
 class _DropLogging(ast.NodeTransformer):
     """What the extraction drops (assumption A-LOG: logging calls neither raise nor mutate library state): every statement `settings.logger.<level>(...)`
     and every `if settings.debugging:` block that consists of such statements only.  Everything else of the source is kept as written."""
@@ -106,6 +112,23 @@ class Source:
         for m, tree in self.mod.items():
             self._index(m, tree.body, prefix="")
         self._canon_locals()
+        self._loop_shapes()
+
+    def _loop_shapes(self):
+        """sidecar invariants are keyed by function and loop ordinal: they apply only while the function has the loops (for / while, in source order) it had when the
+        sidecars were written (contracts/loop_shapes.json, regenerated with local_names.json); otherwise the function is outside the verified subset"""
+        import json
+        ref_path = os.path.join(os.path.dirname(os.path.dirname(os.path.abspath(__file__))), "contracts", "loop_shapes.json")
+        self.loop_shape_changed = {}
+        if not os.path.exists(ref_path):
+            return
+        ref = json.load(open(ref_path))
+        for (m, q), fns in self.functions.items():
+            for k, fn in enumerate(fns):
+                want = ref.get(f"{m}:{q}#{k}")
+                have = loop_shape(fn)
+                if want is not None and want != have:
+                    self.loop_shape_changed[id(fn)] = (want, have)
 
     def _index(self, m, body, prefix):
         for n in body:
